@@ -245,6 +245,14 @@ impl RuntimeData {
     }
 
     pub fn free_object(&mut self, obj: NonNull<CaoLangObject>) {
+        #[cfg(feature = "verif-hooks")]
+        if crate::verif_hooks::quarantine() {
+            unsafe {
+                std::ptr::drop_in_place(obj.as_ptr());
+                std::ptr::write_bytes(obj.as_ptr() as *mut u8, 0xDD, std::mem::size_of::<CaoLangObject>());
+            }
+            return;
+        }
         unsafe {
             std::ptr::drop_in_place(obj.as_ptr());
             self.memory
